@@ -47,6 +47,7 @@ KNOWN = {
     "stack-three": "C05/stack-fallback-raises",
     "copy_-into-plain": "C05/copy-into-plain-raises",
     "pad-circular": "C05/copy-into-plain-raises",
+    "copy_-plain-other-dtype": "C05/copy-plain-into-quantized-raises",
 }
 
 
@@ -423,6 +424,8 @@ def replay(rec):
     except Exception as e:  # noqa
         if op.expect_refusal is not None and isinstance(e, op.expect_refusal):
             return False, "documented refusal", None
+        if key == ["C05/copy-plain-into-quantized-raises"] and not (type(e) is AttributeError and "qtype" in str(e)):
+            key = None  # a different failure of the same program is not the recorded finding
         return True, f"{op.name} on a quantized tensor raises {type(e).__name__}: {e} while the float program is valid", key
     G, R = qops.flatten_results(got), qops.flatten_results(ref)
     if len(G) != len(R):
@@ -457,6 +460,10 @@ def replay(rec):
         elif op.kind == "contract":
             if ((a.double() - r_.double()).abs() > 64 * u * (r_.double().abs() + 1)).any():
                 probs.append(f"contraction {a.tolist()} vs {r_.tolist()}")
+    if probs and op.name.startswith("inplace-") and len(G) == 1 and isinstance(q, QTensor):
+        # known finding only when the receiver is left exactly as it was (the operation ran on a temporary dequantized copy)
+        unchanged = type(G[0]) is type(q) and torch.equal(qops.deq(G[0]), qops.deq(q)) and all(torch.equal(getattr(G[0], n_), getattr(q, n_)) for n_ in ("_data", "_scale"))
+        key = ["C05/in-place-op-is-noop"] if unchanged else None
     if probs and op.name == "neg" and (q._data == -128).any() if q.qtype.bits == 8 and not q.qtype.is_floating_point else False:
         key = ["C05/neg-of-int8-minimum"]
     return bool(probs), f"{op.name} on state {inp['state']}: " + "; ".join(probs[:3]) if probs else f"{op.name}: equals the float program", key if probs else None
